@@ -87,8 +87,12 @@ type FuncVC struct {
 	params       map[string]SVal
 	callOrd      map[string]int
 	unsup        []string
-	noTerm       []string // loops with neither a measure nor an error-exit obligation
+	noTerm       []string        // loops with neither a measure nor an error-exit obligation
 	defKeys      map[string]bool // heap keys that carry a definedness ghost (leaves of the outs parameters)
+	dirtyKeys    map[string]bool // heap keys that carry a written-since-entry ghost (leaves of the pure operands)
+	staleOps     map[string]bool // pointer parameters that are operands only (neither outs nor assigned)
+	prov         map[ssa.Value]map[string]bool
+	readRoots    map[string]bool // operand parameters the pointer of the load being executed derives from
 	nonnil       map[ssa.Value]bool
 	writes       []writeRec
 	retOrd       int
@@ -439,6 +443,111 @@ func readsOf(g *Gen, e *Env, fc *FuncContract) (map[string]bool, map[string]bool
 	return set, restricted
 }
 
+// ---------------------------------------------------------------- class D, second half: operands are not read once overwritten
+//
+// If a destination may alias an operand, the operand must be read before the destination is
+// written: a read through a pointer that derives (statically, in SSA) from an operand parameter
+// must return the value the leaf had at entry. In the call without aliasing that is what every
+// operand read returns (frame), so together with the definedness half this gives, by lockstep
+// simulation, that the aliased and the non-aliased call compute the same result.
+
+func (vc *FuncVC) initStale() {
+	if vc.L.layer1 || len(vc.fc.Outs) == 0 {
+		return
+	}
+	assigned := map[string]bool{}
+	for _, ax := range vc.fc.Assigns {
+		assigned[rootIdent(ax)] = true
+	}
+	vc.staleOps = map[string]bool{}
+	vc.dirtyKeys = map[string]bool{}
+	vc.prov = map[ssa.Value]map[string]bool{}
+	for _, q := range vc.fn.Params {
+		qp, isPtr := q.Type().Underlying().(*types.Pointer)
+		if !isPtr || isOut(vc.fc, q.Name()) || assigned[q.Name()] {
+			continue
+		}
+		if _, sc := scalarSort(qp.Elem()); sc {
+			continue
+		}
+		vc.staleOps[q.Name()] = true
+		for _, lf := range vc.L.leaves(qp.Elem(), 0, "") {
+			vc.dirtyKeys[lf.Key] = true
+		}
+	}
+}
+
+// roots: the operand parameters an SSA pointer value statically derives from.
+func (vc *FuncVC) roots(v ssa.Value) map[string]bool {
+	if r, ok := vc.prov[v]; ok {
+		return r
+	}
+	r := map[string]bool{}
+	vc.prov[v] = r // cuts cycles through phis
+	add := func(x ssa.Value) {
+		for k := range vc.roots(x) {
+			r[k] = true
+		}
+	}
+	switch x := v.(type) {
+	case *ssa.Parameter:
+		if vc.staleOps[x.Name()] {
+			r[x.Name()] = true
+		}
+	case *ssa.FieldAddr:
+		add(x.X)
+	case *ssa.IndexAddr:
+		add(x.X)
+	case *ssa.Phi:
+		for _, e := range x.Edges {
+			add(e)
+		}
+	case *ssa.ChangeType:
+		add(x.X)
+	case *ssa.Convert:
+		add(x.X)
+	case *ssa.Extract:
+		add(x.Tuple)
+	case *ssa.Call:
+		// a pointer result may point into any operand handed to the callee (unless the callee returns fresh memory)
+		if callee := x.Common().StaticCallee(); callee != nil {
+			if fc := vc.W.spec.Funcs[contractName(callee)]; fc != nil && fc.Fresh {
+				break
+			}
+		}
+		for _, a := range x.Common().Args {
+			if _, isPtr := a.Type().Underlying().(*types.Pointer); isPtr {
+				add(a)
+			}
+		}
+	}
+	return r
+}
+
+// staleCheck: the code reads leaf key[idx] through a pointer derived from an operand.
+func (vc *FuncVC) staleCheck(st *State, key string, idx Term) {
+	if vc.dirtyKeys == nil || !vc.dirtyKeys[key] || vc.discovery > 0 || len(vc.readRoots) == 0 {
+		return
+	}
+	s := vc.keys[key]
+	vc.oblige("D", fmt.Sprintf("unmodified/%s#%d", key, vc.ord("unmodified")), vc.reach[vc.curBlock], Implies(vc.inOperand(vc.readRoots, idx), Eq(vc.load(st, key, idx, s), vc.load(vc.entry, key, idx, s))), vc.propTags("C05"), vc.curPos, "an operand read returns the operand's value at entry (not something written through an aliased destination): "+key)
+}
+
+// inOperand: address a lies inside one of the named operand objects.
+func (vc *FuncVC) inOperand(roots map[string]bool, a Term) Term {
+	var names []string
+	for n := range roots {
+		names = append(names, n)
+	}
+	sort.Strings(names)
+	g := TFalse
+	for _, n := range names {
+		pv := vc.params[n]
+		g = Or(g, And(Ne(pv.T, IntLit(0)), Le(pv.T, a), Lt(a, Add(pv.T, IntLit(vc.L.sizeOf(pv.Ty.Elem))))))
+	}
+	return g
+}
+
 func isOut(fc *FuncContract, name string) bool {
 	for _, o := range fc.Outs {
 		if o == name {
@@ -500,6 +609,7 @@ func (vc *FuncVC) loadLoc(st *State, l *Loc) *Val {
 	}
 	t := vc.load(st, l.Key, l.Idx, l.Sort)
 	vc.readCheck(st, l.Key, l.Idx)
+	vc.staleCheck(st, l.Key, l.Idx)
 	if l.Type != nil {
 		if _, _, isInt := intRange(l.Type); isInt && !isCondition(l.Type) {
 			t = vc.define("ld", t)
@@ -529,6 +639,7 @@ func (vc *FuncVC) loadAgg(st *State, a Term, t types.Type) *Val {
 	for _, lf := range vc.L.leaves(t, 0, "") {
 		v.Flat = append(v.Flat, vc.load(st, lf.Key, Add(a, IntLit(lf.Off)), lf.Sort))
 		vc.readCheck(st, lf.Key, Add(a, IntLit(lf.Off)))
+		vc.staleCheck(st, lf.Key, Add(a, IntLit(lf.Off)))
 	}
 	return v
 }
@@ -754,6 +865,7 @@ func (vc *FuncVC) Generate() (err error) {
 	}
 	vc.applyHints(e0)
 	vc.initDef()
+	vc.initStale()
 	// vacuity guard: the preconditions (and everything assumed at entry) are satisfiable
 	vc.oblige("V", "vacuity/requires-sat", TTrue, TFalse, vc.propTags("C04"), vc.fn.Pos(), "requires satisfiable").ExpectSat = true
 	rpo := vc.analyseCFG()
